@@ -91,11 +91,24 @@ fn sig(k: &str, cfg: &Config, corpus: &Corpus) -> String {
     format!("{k} {} corpus={}", cfg.short(), corpus.name)
 }
 
+/// Every text of 2..4 characters over {a,b,あ,1}, plus texts LONGER than the large windows (11..40 characters;
+/// rotations and a fixed scrambled sequence), so that long weight vectors are applied in the middle of a sentence
+/// and not only hanging over its start.
+pub fn eval_texts() -> Vec<Vec<char>> {
+    let mut texts = gen::strings(&['a', 'b', 'あ', '1'], 2, 4);
+    for len in [11usize, 20, 27, 40] {
+        for r in 0..3usize {
+            texts.push((0..len).map(|i| ['a', 'b', 'あ', '1'][if r == 2 { (gen::mix(i as u64) % 4) as usize } else { (i * (r + 1) + i / 3) % 4 }]).collect());
+        }
+    }
+    texts
+}
+
 pub fn replay(c: &Value) -> Option<(String, String)> {
     mute_stdout();
     let cfg: Config = serde_json::from_value(c["cfg"].clone()).ok()?;
     let corpus: Corpus = serde_json::from_value(c["corpus"].clone()).ok()?;
-    let texts = gen::strings(&['a', 'b', 'あ', '1'], 2, 4);
+    let texts = eval_texts();
     // training is randomised (liblinear's rand(), hash-map order): a systematic defect shows up
     // again within a few attempts
     let stored = c["kind"].as_str().unwrap_or("").to_string();
@@ -138,7 +151,7 @@ pub fn configs(tier: Tier) -> Vec<Config> {
         }
     }
     // a few large windows (variable-length weight vectors, n-grams hanging over the sentence start)
-    for (cw, cn, tw, tn) in [(9u8, 2u8, 8u8, 1u8), (8, 1, 12, 2), (12, 3, 9, 3)] {
+    for (cw, cn, tw, tn) in [(9u8, 2u8, 8u8, 1u8), (8, 1, 12, 2), (12, 3, 9, 3), (5, 2, 6, 2), (6, 1, 5, 3), (7, 2, 4, 1)] {
         for &sv in &[1u8, 5] {
             out.push(Config { charw: cw, charn: cn, typew: tw, typen: tn, dict: vec!["ab".into()], bucket: 2, solver: sv });
         }
@@ -153,7 +166,7 @@ pub fn run(tier: Tier) -> ! {
     chk.randomised.store(true, std::sync::atomic::Ordering::Relaxed);
     let cfgs = configs(tier);
     let corpora = corpora_boundary(tier.pick(4, 12));
-    let texts = gen::strings(&['a', 'b', 'あ', '1'], 2, 4);
+    let texts = eval_texts();
     chk.set("configurations", json!(cfgs.len()));
     chk.set("corpora", json!(corpora.iter().map(|c| c.name.clone()).collect::<Vec<_>>()));
     chk.set("evaluation_texts", json!(texts.len()));
